@@ -16,7 +16,7 @@ TypeTable == <<
   <<"DateTime<Utc>", "ChronoDateTimeUtc">>, <<"DateTime<FixedOffset>", "ChronoDateTimeWithTimeZone">>,
   <<"time::Date", "TimeDate">>, <<"time::Time", "TimeTime">>, <<"PrimitiveDateTime", "TimeDateTime">>,
   <<"OffsetDateTime", "TimeDateTimeWithTimeZone">>, <<"Decimal", "Decimal">>, <<"BigDecimal", "BigDecimal">>,
-  <<"Uuid", "Uuid">>, <<"IpNetwork", "IpNetwork">>, <<"MacAddress", "MacAddress">>,
+  <<"Uuid", "Uuid">>, <<"IpNetwork", "IpNetwork">>, <<"MacAddress", "MacAddress">>, <<"Vector", "Vector">>,
   <<"Vec<i32>", "Array:Int">>, <<"Vec<String>", "Array:String">>, <<"Vec<f64>", "Array:Double">>,
   <<"Cow<str>", "String">> >>
 SourceTypes == {TypeTable[i][1] : i \in 1..(Len(TypeTable) - 1)}      \* Cow<str> is a target only here
